@@ -124,6 +124,11 @@ OPS.update(
         "repr_events": "[repr(e) for e in events(c)]",
         "eq_self": "(c == c, c != c, c == 3, c.sync_track == c.sync_track, [t == t for t in tracks(c)])",
         "eq_events": "[a == b for a in events(c)[:6] for b in events(c)[:6]]",
+        # comparison ACROSS types: the chart, its parts and its events compared with one another in both operand
+        # orders (a dataclass __eq__ answers NotImplemented for a foreign type, so the other side's __eq__ runs too)
+        "eq_cross_chart": "[(c == x, x == c, c != x, x != c) for x in [c.metadata, c.sync_track, c.sync_track.bpm_events, c.global_events_track, c.instrument_tracks] + tracks(c) + events(c) + event_lists(c)]",
+        "in_cross": "[(c in list(l), [x in [c] for x in list(l)[:3]]) for l in event_lists(c)] + [c.metadata in [c], c in [c.metadata], c in tracks(c), c.sync_track in [c]]",
+        "eq_cross_parts": "(lambda parts: [a == b for a in parts for b in parts])([c.metadata, c.sync_track, c.global_events_track, c.sync_track.bpm_events] + tracks(c) + events(c)[:8])",
         "hash_events": "[hash(e) for e in events(c)]",
         "derived_note": "[(e.longest_sustain, e.end_tick) for t in tracks(c) for e in t.note_events]",
         "derived_track": "[(t.header_tag, t.last_note_end_timestamp) for t in tracks(c)]",
